@@ -2,7 +2,7 @@
 terminal/terminal conflicts; the paired rule carries nodes, externals, paired nonterminal edges and all terminal edges."""
 from __future__ import annotations
 import ast
-from typing import Dict, List, Set
+from typing import Dict, List, Optional, Set
 from ..model import Program, AnalysisError, own_nodes, norm, names_in
 from ..cfg import cfg_of
 from ..guards import Env, walk, collect_atoms, valuations, describe_env
@@ -45,6 +45,12 @@ def run(prog: Program, rep: Report, tier: str) -> None:
         # the result is added
         st = cfg.nodes[n].stmt
         ok3 = any(isinstance(x, ast.Call) and callee_last(x) == 'add_rule' for x in ast.walk(st))
+        if not ok3 and isinstance(st, ast.Assign) and len(st.targets) == 1 and isinstance(st.targets[0], ast.Name):
+            # the rule is named first: a later statement of the same iteration adds it, on every path
+            X = st.targets[0].id
+            adds = lambda k: cfg.nodes[k].kind == 'stmt' and any(isinstance(x, ast.Call) and callee_last(x) == 'add_rule' and x.args and norm(x.args[0]) == X for x in ast.walk(cfg.nodes[k].stmt))
+            nxt = [b for b, l in cfg.succ[n] if l != 'exc']
+            ok3 = bool(nxt) and cfg.all_paths_pass(nxt[0], adds, targets={hdr if hdr is not None else cfg.exit, cfg.exit})[0]
         rep.ob('C17-D1 guard-dominance', f.fq(), 'the conjoined rule is added to the result', f.loc(c), ok3, '')
     conjoinable_rule(rep, prog)
     # D2
@@ -125,6 +131,32 @@ def conjoinable_rule(rep: Report, prog: Program) -> None:
         if both and '.ext' in txt: roles['externals'] = True
     for k, v in roles.items():
         rep.ob('C17-D1 conjoinable', f.fq(), f"compares the {k} of both rules", f.loc(), v, '' if v else f"no comparison involves the {k} of both rules")
+    # externals are a sequence (the i-th external of the pair is the i-th external of each rule) and an attachment is a sequence:
+    # the comparison must keep the order -- no set / frozenset / sorted / Counter around either
+    def unordered(e: ast.AST) -> Optional[str]:
+        e = inline_temps(f.node, e)
+        for x in ast.walk(e):
+            if isinstance(x, (ast.SetComp, ast.Set)):
+                return 'a set display'
+            if isinstance(x, ast.Call) and callee_last(x) in ('set', 'frozenset', 'sorted', 'Counter'):
+                return f"{callee_last(x)}(...)"
+        return None
+    for t in eq_atoms:
+        a = inline_temps(f.node, atoms[t])
+        txt = norm(a)
+        if '.ext' in txt and p1 in txt and p2 in txt:
+            why = unordered(a)
+            rep.ob('C17-D1 conjoinable', f.fq(), f"`{t}` compares the externals position by position", f.loc(), why is None,
+                   'ordered comparison' if why is None else f"the externals go through {why}: two rules whose externals are the same nodes in a different order are accepted, and the paired rule takes the order of the first")
+        if 'edges()' in txt and '.nodes' in txt:
+            bad = None
+            for x in ast.walk(a):
+                if isinstance(x, (ast.GeneratorExp, ast.ListComp, ast.SetComp)) and len(x.generators) == 1 and norm(x.generators[0].iter).endswith('.nodes'):
+                    par = [y for y in ast.walk(a) if isinstance(y, ast.Call) and x in y.args]
+                    if isinstance(x, ast.SetComp) or any(callee_last(y) in ('set', 'frozenset', 'sorted', 'Counter') for y in par):
+                        bad = norm(par[0] if par else x)
+            rep.ob('C17-D1 conjoinable', f.fq(), f"`{t[:60]}` compares each attachment as a sequence", f.loc(), bad is None,
+                   'attachment order kept' if bad is None else f"`{bad[:80]}` forgets the order of the attachment nodes")
 
 
 def conflict_rules(rep: Report, prog: Program) -> None:
